@@ -30,6 +30,8 @@ func main() {
 		props.SrvChild(os.Args[2:])
 	case "syncchild":
 		props.SyncChild(os.Args[2:])
+	case "srvrealchild":
+		props.SrvRealChild(os.Args[2:])
 	case "mksyncchild":
 		props.MksyncChild(os.Args[2:])
 	case "run":
